@@ -2,7 +2,10 @@
 control.similarity_transform / reachable_form / observable_form / canonical_form /
 model_reduction / TransferFunction.minreal and the Lean model (Model/Canonical.lean,
 Model/CanonicalDyn.lean, Model/Minreal.lean; driver family `c15`)."""
+import contextlib
+import io
 import re
+import warnings
 from fractions import Fraction
 
 import numpy as np
@@ -243,6 +246,73 @@ def key_resolved(k, labels):
 #   a root is stored as a token "p/q" (rational) or a pair ["re", "im"] (Gaussian rational)
 # ----------------------------------------------------------------------------
 
+# flag objects -----------------------------------------------------------------------------------
+# What callers pass for a documented boolean option (inverse=, warn_unstable=, verbose=).  The token is
+# the driver's spelling of the object (Model/PyFlag.lean: the model computes the truth value); the
+# generator chooses the intended truth value first and then one of its spellings.
+FLAG_FALSY = ["b0", "b0", "b0", "i0", "i0", "nb0", "nb0", "ni0", "f0", "a0", "none", "s:"]
+FLAG_TRUTHY = ["b1", "b1", "b1", "b1", "i1", "i1", "i2", "i-1", "nb1", "nb1", "ni1", "ni3", "f1", "f1/2", "f-2",
+               "a1", "s:False", "s:no"]
+
+
+def flag_kind(t):
+    if t is None:
+        return "literal"
+    if t == "default":
+        return "default"
+    if t in ("b0", "b1"):
+        return "literal"
+    if t.startswith("nb"):
+        return "npbool"
+    if t.startswith("ni"):
+        return "npint"
+    if t == "none":
+        return "none"
+    if t.startswith("s:"):
+        return "str"
+    if t.startswith("a"):
+        return "arr0"
+    if t.startswith("i"):
+        return "int"
+    if t.startswith("f"):
+        return "float"
+    raise ValueError(t)
+
+
+def flag_value(t):
+    """the Python object behind a flag token"""
+    k = flag_kind(t)
+    if t in ("b0", "b1"):
+        return t == "b1"
+    if k == "npbool":
+        return np.float64(int(t[2:])) > 0       # numpy.bool_, the result of a NumPy comparison
+    if k == "npint":
+        return np.int64(int(t[2:]))
+    if k == "none":
+        return None
+    if k == "str":
+        return t[2:]
+    if k == "arr0":
+        return np.array(t == "a1")
+    if k == "int":
+        return int(t[1:])
+    if k == "float":
+        return float(F(t[1:]))
+    raise ValueError(t)
+
+
+def flag_token(t, default):
+    """the token handed to the model: an omitted argument is the default of the signature"""
+    return default if t in (None, "default") else t
+
+
+def rand_flag(rng, truth, allow_default=None):
+    """a spelling of the truth value `truth`; `allow_default` = truth value of the signature's default"""
+    if allow_default is truth and rng.random() < 0.15:
+        return "default"
+    return rng.choice(FLAG_TRUTHY if truth else FLAG_FALSY)
+
+
 MR_SMALL = [F(x, 4) for x in range(-12, 13)]          # O(1) roots, separated by >= 1/4
 MR_MANT = [F(1), F(5, 4), F(3, 2), F(7, 4)]           # mantissas of the graded roots (rel. separation >= 1/8)
 MR_EPS = F(1, 2 ** 52)                                # float_info.epsilon
@@ -341,7 +411,8 @@ class C15(Family):
     # control/canonical.py and control/modelsimp.py of the tree under check on every run and proved equal to
     # the run-time model (DSS.similarity / reachableForm / observableForm / modelReduction)
     extra_modules = ["CtrlVerif.Props.C15GenSim", "CtrlVerif.Props.C15GenReach", "CtrlVerif.Props.C15GenObs",
-                     "CtrlVerif.Props.C15GenForm", "CtrlVerif.Props.C15GenKeys", "CtrlVerif.Props.C15GenReduce"]
+                     "CtrlVerif.Props.C15GenForm", "CtrlVerif.Props.C15GenKeys", "CtrlVerif.Props.C15GenReduce",
+                     "CtrlVerif.Props.C15Flag"]
 
     def pre_build(self):
         import os
@@ -367,6 +438,9 @@ class C15(Family):
         "rows/columns), so that matrix_rank and det = 0 must agree",
         "the timebase of model_reduction results is not compared (C05)",
         "modal_form / bdschur are outside this property",
+        "flag objects (inverse=, warn_unstable=): bool, int, numpy.bool_, numpy.int64, finite float, None, str, 0-d "
+        "bool array, with CPython / NumPy truthiness (Model/PyFlag.lean, trusted); objects whose truth value raises "
+        "(arrays with several elements) and nan are outside; whether model_reduction warns is not compared",
         "minreal: roots are rational or Gaussian rational (conjugate pairs on the 1/4 grid); coefficient lists "
         "are exactly representable as floats (generator guard); every zero is equal to a pole or at least 1000 "
         "tolerances away from it (exact generator guard; 100 for explicit tolerances), and the driver "
@@ -378,18 +452,23 @@ class C15(Family):
         "measured 6.2e-13), 1e-5 for roots spread over up to 2^54 (worst measured 3.5e-10 on 80 000 cases per "
         "class), 1e-3 for a survivor of a split double root (worst measured 1.4e-7)"]
     rule = ("similarity: random integer systems (n 0..5, shapes {1,2,3}^2), unimodular integer T, timescale in "
-            "{1,2,1/2,-1,3,...}, inverse flag, plus singular / wrong-shape T; canonical forms: SISO reachable "
+            "{1,2,1/2,-1,3,...} (float, int, numpy.float64, numpy.int64, omitted), inverse= as a flag *object* "
+            "(literal False/True, omitted, 0/1/2/-1, numpy.bool_ from a comparison, numpy.int64, floats, 0-d bool "
+            "array, None, strings; the model computes the truth value; two regular cases of every spelling in every "
+            "quick run), keyword or positional arguments, plus singular / wrong-shape T; canonical forms: SISO reachable "
             "(observable) integer systems of order 1..5 under a conditioning guard, plus structurally "
             "unreachable/unobservable, MIMO and zero-state inputs, through reachable_form/observable_form/"
             "canonical_form; model_reduction: keep/elim of states, inputs, outputs spelled as int, name, list "
             "(mixed, list/tuple/ndarray), slice (negative steps), negative offsets, duplicates, custom labels, "
-            "methods truncate/matchdc/other, singular A22, discrete systems; minreal: products of linear "
+            "methods truncate/matchdc/other, singular A22, discrete systems, warn_unstable= as any flag object or "
+            "omitted (warnings captured, result must not depend on it); minreal: products of linear "
             "factors with shared roots, in the classes small (1/4 grid in [-3,3], also no poles, improper, "
             "explicit tolerances), bigzero / bigpole / bigboth (one or two roots of size 2^13..2^26 next to O(1) "
             "dynamics, optionally shared), tiny (roots of size 2^-28..2^-6), log (every root m*2^e, e in "
             "-14..14), repeated (multiplicity 2 on either side, explicit tolerance), complex (conjugate pairs, "
             "distinct roots sharing real part / imaginary part / modulus), mimo (1x2..3x2 matrices mixing the "
-            "classes, one tolerance argument); 20 cases of every class in every quick run; non-trivial = the "
+            "classes, one tolerance argument); 30% of the 1x1 cases through control.minreal(sys, tol, verbose=flag "
+            "object or omitted), output captured; 20 cases of every class in every quick run; non-trivial = the "
             "operation returns a system with states (or cancels a factor)")
 
     # ---- generation ---------------------------------------------------------
@@ -401,11 +480,12 @@ class C15(Family):
                 "C": toks([ri() for _ in range(p * n)]),
                 "D": toks([rng.randint(lo, hi) if rng.random() < 0.7 else 0 for _ in range(p * m)])}
 
-    def gen_sim(self, rng):
-        n = rng.choice([0, 1, 2, 2, 3, 3, 4, 5])
+    def gen_sim(self, rng, flag=None):
+        """`flag`: a flag token to use for inverse= (then a regular case: states, unimodular T)"""
+        n = rng.choice([0, 1, 2, 2, 3, 3, 4, 5]) if flag is None else rng.choice([2, 3, 3, 4])
         p, m = rng.choice([1, 1, 2, 3]), rng.choice([1, 1, 2, 3])
         s = self.rand_sys(rng, n, p, m)
-        r = rng.random()
+        r = rng.random() if flag is None else 0.0
         q = n
         kind = "unimodular"
         if r < 0.80:
@@ -431,9 +511,17 @@ class C15(Family):
         c = rng.choice(["1", "1", "2", "1/2", "-1", "3", "4", "-2", "1/4", "5"])
         if rng.random() < 0.03:
             c = "0"
+        inv = (rng.random() < 0.4) if flag is None else (flag in FLAG_TRUTHY)
+        # how the call is spelled: the flag object (intended truth value `inv`), the kind of number
+        # handed over as timescale, keyword / positional arguments, omitted defaults
+        flag = flag or rand_flag(rng, inv, allow_default=False)
+        ckind = rng.choice(["float", "float", "int", "int", "npfloat", "npint", "default"])
+        if ckind == "default" and c != "1":
+            ckind = "float"
+        how = "kw" if "default" in (flag, ckind) else rng.choice(["kw", "kw", "pos"])
         return {"op": "sim", "sys": s, "q": q, "T": exmat.flat_tokens(T), "c": c,
-                "inv": rng.random() < 0.4, "Tas": rng.choice(["array", "list", "intarray"]),
-                "ckind": rng.choice(["float", "int"]), "kind": kind}
+                "inv": inv, "flag": flag, "how": how, "Tas": rng.choice(["array", "list", "intarray"]),
+                "ckind": ckind, "kind": kind}
 
     def reach_ok(self, s, dual=False):
         """conditioning guard for canonical forms (exact)"""
@@ -619,7 +707,10 @@ class C15(Family):
             method = "matchdc"
             s["dt"] = "C"
             kind = "singular-A22"
-        return {"op": "red", "sys": s, "labels": labels, "keys": keys, "method": method, "kind": kind}
+        # warn_unstable=: the family used to pass the literal False only, so the code under `if warn_unstable:`
+        # (and the default, True) never ran; now any flag object / omitted.  The result must not depend on it.
+        wu = rand_flag(rng, rng.random() < 0.5, allow_default=True)
+        return {"op": "red", "sys": s, "labels": labels, "keys": keys, "method": method, "kind": kind, "wu": wu}
 
     # minreal ------------------------------------------------------------------
     MR_CLASSES = ["small", "small", "bigzero", "bigzero", "bigpole", "bigboth", "tiny", "log", "repeated",
@@ -746,7 +837,10 @@ class C15(Family):
                 r = self.mr_entry(rng, cls)
                 if r is None:
                     continue
-                return {"op": "minreal", "p": 1, "m": 1, "entries": [r[0]], "tol": r[1], "dt": dt, "cls": cls}
+                case = {"op": "minreal", "p": 1, "m": 1, "entries": [r[0]], "tol": r[1], "dt": dt, "cls": cls}
+                if rng.random() < 0.3:      # through control.minreal(sys, tol, verbose=<flag object or omitted>)
+                    case.update(via="function", vb=rand_flag(rng, rng.random() < 0.5, allow_default=True))
+                return case
             # MIMO: entries of different classes in one matrix, one tolerance argument for all of them
             p_, m_ = rng.choice([(1, 2), (2, 1), (2, 2), (2, 3), (3, 2)])
             ents, tol = [], rng.choice([None, None, "0"])
@@ -775,6 +869,11 @@ class C15(Family):
                 out.append(self.gen_minreal(rng))
         # minreal input classes (root magnitudes, multiplicities, complex pairs, matrices): every class
         # is present in every run
+        # similarity_transform: every kind of flag object for inverse= is present in every run, on a regular
+        # case (states, invertible non-trivial T), so that the direction taken is visible in the result
+        per = 2 if tier == "quick" else 40
+        for t in sorted(set(FLAG_FALSY + FLAG_TRUTHY + ["default"])):
+            out.extend(self.gen_sim(rng, flag=t) for _ in range(per))
         per = 20 if tier == "quick" else 450
         for cls in self.MR_CLASSES:
             out.extend(self.gen_minreal(rng, cls) for _ in range(per))
@@ -803,6 +902,14 @@ class C15(Family):
              "Tas": "array", "ckind": "float", "kind": "unimodular"},
             {"op": "canon", "form": "reachable", "via": "direct", "sys": s3, "kind": "regular"},
             {"op": "canon", "form": "observable", "via": "canonical_form", "sys": s3, "kind": "regular"},
+            # flag objects for inverse= (C15-m8: `inverse is False` sends 0 / numpy.False_ to the x = T z branch)
+        ] + [
+            {"op": "sim", "sys": s3, "q": 3, "T": toks([1, 2, 0, 0, 1, 3, 1, 0, 2]), "c": c_, "inv": t_ in FLAG_TRUTHY,
+             "flag": t_, "how": h_, "Tas": "array", "ckind": "float", "kind": "regular"}
+            for (t_, c_, h_) in [("i0", "1", "kw"), ("nb0", "2", "kw"), ("ni0", "1", "pos"), ("a0", "1", "kw"),
+                                 ("none", "1", "kw"), ("default", "1", "kw"), ("i2", "2", "kw"), ("nb1", "1", "pos"),
+                                 ("s:False", "1", "kw")]
+        ] + [
             # minreal, one minimised case per input class that a seeded change needed (C15-m3 and its
             # neighbours: tolerance taken from the largest zero / pole, all matching poles deleted, test on
             # the real part only, absolute tolerance)
@@ -818,6 +925,9 @@ class C15(Family):
     def line(self, case):
         op = case["op"]
         if op == "sim":
+            if case.get("flag") is not None:    # the flag *object*: the model computes its truth value
+                return "c15 simf %s %d %s %s %s" % (leaf_line(case["sys"]), case["q"], " ".join(case["T"]),
+                                                    case["c"], flag_token(case["flag"], "b0"))
             return "c15 sim %s %d %s %s %d" % (leaf_line(case["sys"]), case["q"], " ".join(case["T"]), case["c"],
                                                1 if case["inv"] else 0)
         if op == "canon":
@@ -869,9 +979,23 @@ class C15(Family):
                 if case["Tas"] == "list" and q > 0:      # [] would be a (1, 0) array
                     T = T.tolist()
                 c = F(case["c"])
-                cv = int(c) if (case["ckind"] == "int" and c.denominator == 1) else float(c)
+                ck = case["ckind"]
+                if ck in ("int", "npint") and c.denominator == 1:
+                    cv = int(c) if ck == "int" else np.int64(int(c))
+                else:
+                    cv = np.float64(float(c)) if ck == "npfloat" else float(c)
+                flag = case.get("flag")
+                fv = case["inv"] if flag is None else (None if flag == "default" else flag_value(flag))
                 with np.errstate(all="ignore"):
-                    z = ct.similarity_transform(s, T, timescale=cv, inverse=case["inv"])
+                    if case.get("how") == "pos":
+                        z = ct.similarity_transform(s, T, cv, fv)
+                    else:
+                        kw = {}
+                        if not (ck == "default" and c == 1):
+                            kw["timescale"] = cv
+                        if flag != "default":
+                            kw["inverse"] = fv
+                        z = ct.similarity_transform(s, T, **kw)
                 return {"ok": canon_ss(z)}
             if op == "canon":
                 s = build_sys(case["sys"])
@@ -885,11 +1009,15 @@ class C15(Family):
             if op == "red":
                 s = build_sys(case["sys"], case["labels"])
                 k = case["keys"]
-                r = ct.model_reduction(
-                    s, elim_states=key_value(k["es"]), keep_states=key_value(k["ks"]),
-                    elim_inputs=key_value(k["ei"]), keep_inputs=key_value(k["ki"]),
-                    elim_outputs=key_value(k["eo"]), keep_outputs=key_value(k["ko"]),
-                    method=case["method"], warn_unstable=False)
+                wu = case.get("wu")
+                kw = {} if wu == "default" else {"warn_unstable": False if wu is None else flag_value(wu)}
+                with warnings.catch_warnings():
+                    warnings.simplefilter("ignore")     # "System is unstable; reduction may be meaningless"
+                    r = ct.model_reduction(
+                        s, elim_states=key_value(k["es"]), keep_states=key_value(k["ks"]),
+                        elim_inputs=key_value(k["ei"]), keep_inputs=key_value(k["ki"]),
+                        elim_outputs=key_value(k["eo"]), keep_outputs=key_value(k["ko"]),
+                        method=case["method"], **kw)
                 return {"ok": canon_ss(r)}
             if op == "minreal":
                 ents = mr_entries(case)
@@ -902,7 +1030,13 @@ class C15(Family):
                               [[fl(ents[i * m_ + j]["den"]) for j in range(m_)] for i in range(p_)],
                               dt_value(case["dt"]))
                 tol = None if case["tol"] is None else float(F(case["tol"]))
-                r = g.minreal(tol) if case["tol"] is not None else g.minreal()
+                if case.get("via") == "function":       # modelsimp.minimal_realization; what it prints is not compared
+                    vb = case.get("vb", "default")
+                    kw = {} if vb == "default" else {"verbose": flag_value(vb)}
+                    with contextlib.redirect_stdout(io.StringIO()):
+                        r = ct.minreal(g, tol, **kw) if case["tol"] is not None else ct.minreal(g, **kw)
+                else:
+                    r = g.minreal(tol) if case["tol"] is not None else g.minreal()
                 if (r.noutputs, r.ninputs) != (p_, m_):
                     return {"ok": {"shape": [r.noutputs, r.ninputs]}}
                 return {"ok": {"entries": [{"num": toks([fr(x) for x in r.num_array[i, j]]),
@@ -951,6 +1085,8 @@ class C15(Family):
             feat["form"] = case["form"] if case["form"] in ("reachable", "observable") else "other"
         if case["op"] == "red":
             feat["method"] = case["method"]
+        if case["op"] == "sim" and case.get("flag") is not None:
+            feat["flag"] = flag_kind(case["flag"])      # the kind of object passed as inverse=
         if impl is not None and "err" in impl:
             feat["exc"] = impl["exc"].split(":")[0]
             feat["msg"] = re.sub(r"[0-9]+", "#", impl["exc"].split(":", 1)[1].strip())[:50]
@@ -1034,7 +1170,10 @@ class C15(Family):
                    (C2, exmat.mul(C, T), "C' = C T")]
         for (l, r, name) in rel:
             if n and not exmat.close(l, r, tol):
-                return Verdict(VIOLATES, "relation %s fails on the returned matrices" % name,
+                spelled = "" if case.get("flag") is None else " (inverse=%s, a %s flag object)" % (
+                    "omitted" if case["flag"] == "default" else repr(flag_value(case["flag"])),
+                    "truthy" if case["inv"] else "falsy")
+                return Verdict(VIOLATES, "relation %s fails on the returned matrices%s" % (name, spelled),
                                self.features(case, "relation", rel=name.replace(" ", "")))
         if D2 != D:
             return Verdict(VIOLATES, "D changed", self.features(case, "D"))
@@ -1226,6 +1365,8 @@ class C15(Family):
             st["sim.n"] = case["sys"]["n"]
             st["sim.c"] = case["c"]
             st["sim.inverse"] = case["inv"]
+            st["sim.flag"] = "%s/%s" % (flag_kind(case.get("flag")), "truthy" if case["inv"] else "falsy")
+            st["sim.call"] = "%s/timescale:%s" % (case.get("how", "kw"), case["ckind"])
         elif case["op"] == "canon":
             st["canon.kind"] = case["kind"]
             st["canon.form"] = case["form"] + "/" + case["via"]
@@ -1233,6 +1374,7 @@ class C15(Family):
         elif case["op"] == "red":
             st["red.kind"] = case["kind"]
             st["red.method"] = case["method"]
+            st["red.warn_unstable"] = flag_kind(case.get("wu"))
             for x in ("es", "ks", "ei", "ki", "eo", "ko"):
                 if case["keys"][x]["t"] != "N":
                     st["red.key." + x] = key_kind(case["keys"][x])
@@ -1244,6 +1386,7 @@ class C15(Family):
             st["minreal.class"] = case.get("cls", "small")
             st["minreal.shape"] = "%dx%d" % (case.get("p", 1), case.get("m", 1))
             st["minreal.tol"] = case["tol"] or "default"
+            st["minreal.via"] = "method" if case.get("via") != "function" else "function/verbose:" + flag_kind(case["vb"])
             mags = [abs(a) + abs(b) for e in ents for (a, b) in map(root_parts, e["zeros"] + e["poles"])
                     if (a, b) != (0, 0)]
             if mags:        # spread of the root magnitudes inside the case, in powers of two
@@ -1256,6 +1399,9 @@ class C15(Family):
     def shrink_minreal(self, case):
         ents = mr_entries(case)
         base = {"op": "minreal", "tol": case["tol"], "dt": case["dt"]}
+        if case.get("via") == "function":
+            base.update(via="function", vb=case.get("vb", "default"))
+            yield {k: v for k, v in case.items() if k not in ("via", "vb")}     # the method itself
         if len(ents) > 1:       # a single entry of the matrix
             for e in ents:
                 yield dict(base, p=1, m=1, entries=[e], cls=e.get("cls", "small"))
@@ -1300,6 +1446,8 @@ class C15(Family):
         if case["op"] == "minreal":
             yield from self.shrink_minreal(case)
         if case["op"] == "red":
+            if case.get("wu") not in (None, "b0"):
+                yield dict(case, wu="b0")
             k = case["keys"]
             for x in ("ei", "ki", "eo", "ko", "es", "ks"):
                 if k[x]["t"] != "N":
@@ -1316,6 +1464,15 @@ class C15(Family):
                 yield dict(case, sys=dict(s, dt="C"))
             if case["op"] == "sim" and case["c"] != "1":
                 yield dict(case, c="1")
+            if case["op"] == "sim":         # plain spelling of everything but the flag object
+                if case.get("how") == "pos":
+                    yield dict(case, how="kw")
+                if case["ckind"] not in ("float", "default"):
+                    yield dict(case, ckind="float")
+                if case["Tas"] != "array":
+                    yield dict(case, Tas="array")
+                if flag_kind(case.get("flag")) not in ("literal", "default"):
+                    yield dict(case, flag="b1" if case["inv"] else "b0")
 
     def search(self, rng, case, tier):
         if case["op"] == "minreal":
